@@ -26,22 +26,28 @@ func NewDelegateListener(delegateListener core.Listener) *DelegateListener {
 // happens.
 func (l *DelegateListener) OnDropped() {
 	l.delegateListener.OnDropped()
-	// unblock
+	// unblock (under the lock: a caller that is about to wait holds it until it is registered)
+	l.c.L.Lock()
 	l.c.Broadcast()
+	l.c.L.Unlock()
 }
 
 // OnIgnore is called to indicate the operation failed before any meaningful RTT measurement could be made and
 // should be ignored to not introduce an artificially low RTT.
 func (l *DelegateListener) OnIgnore() {
 	l.delegateListener.OnIgnore()
-	// unblock
+	// unblock (under the lock: a caller that is about to wait holds it until it is registered)
+	l.c.L.Lock()
 	l.c.Broadcast()
+	l.c.L.Unlock()
 }
 
 // OnSuccess is called as a notification that the operation succeeded and internally measured latency should be
 // used as an RTT sample.
 func (l *DelegateListener) OnSuccess() {
 	l.delegateListener.OnSuccess()
-	// unblock
+	// unblock (under the lock: a caller that is about to wait holds it until it is registered)
+	l.c.L.Lock()
 	l.c.Broadcast()
+	l.c.L.Unlock()
 }
